@@ -72,6 +72,8 @@ def run(tier):
     failed = []
     for r in results:
         part.add_job(r)
+        if r.get('anchor_drift'):
+            part.extra.setdefault('loop_anchor_drift', []).append(r['anchor_drift'])
         if r['status'] == 'ok':
             for f in r['failed']:
                 failed.append((r, f))
@@ -87,6 +89,9 @@ def run(tier):
             if p.returncode != 0:
                 found = out[-3000:]
         for r, f in failed:
+            if r.get('anchor_drift') and not found:
+                part.errors.append('%s: loop map out of date (%s) and the failing obligation %s could not be reproduced natively - not reported as a violation' % (r['name'], r['anchor_drift'], f['property']))
+                continue
             payload = {'property': 'C15', 'engine': 'jsmn', 'function': r['enforce'], 'obligation': f['property'],
                        'description': f['description'], 'location': f.get('location'),
                        'cbmc_trace_assignments': (f.get('trace') or [])[-80:],
